@@ -13,7 +13,7 @@ RULE = ("slice parameter pairs (start,len) over {0,1,len-1,len,len+1,2^32,2^63,2
         "backend must give identical observations")
 PROVED = ("creation guard exact in N (incl. wrap-around) and the created slice = abstract reader over exactly the requested window, "
           "for any in-bounds-correct wrapped stream, to any nesting depth; sub-slicing; slice-here advances the parent iff it "
-          "succeeds (memory); every history observes the same on a memory reader and on any slice with the same window; independence over the system of live objects Sys (Op2Model/StreamSys.lean, the system the `multi` commands execute): frame (a request to one object leaves every other object as it was), a refused creation — and any refused request, from any state — changes nothing in the whole system (C13_refused_request_changes_nothing), and projection — under every interleaved history an object answers and ends exactly as under its own requests alone, also from the point of its creation (C13_interleaving_*); no request changes the bytes an object exposes, so under every interleaved history every object still exposes exactly the window it was created over (C13_request_keeps_window, C13_confined_under_every_history; Op2Proofs/SysContent.lean, for all four backends incl. a slice of a file slice); every object of every system reachable from one memory or file reader by ANY interleaved history with 64-bit arguments satisfies its class invariant and exposes a contiguous window of the root's bytes (C13_every_reachable_object_is_a_window; one derivation: C13_derived_object_is_a_window_of_its_parent; Op2Proofs/SysGood.lean); refinement of whole systems: on every backend every request except copy construction answers and moves as the N-specification specOStep says of the exposed bytes and relative cursor, a system of any mix of backends answers every interleaved history as the list of abstract readers does, and the same history on a memory reader and on a file reader over the same bytes — with all slices it creates — gives the same answers and corresponding objects (C13_request_refines_spec, C13_system_refines_spec, C13_system_backend_equivalence; Op2Proofs/SysEquiv.lean; copy construction excluded: the backends differ there by design, which the model states and the multi runs compare); the construction of a VOL / CLM member stream as the archive models describe it (Vol.View.slice, Clm.extent) is the stream model's Slice.create over the archive file with exactly the member's window (C13_member_stream_is_slice, C13_clm_member_stream_is_slice), so member streams are objects of Sys and keep exposing exactly the member's recorded extent under every history (C13_member_stream_confined); L2: the SliceReader constructor + Initialize, Slice(start,len) and Slice(len) are re-translated from the C++ on every run (Gen/Streams.lean) and proved equal to Slice.create / slice2 / slice1 on all 64-bit values (C13_gen_*, with the read/seek guards of C12_gen_slice_*)")
+          "succeeds (memory); every history observes the same on a memory reader and on any slice with the same window; independence over the system of live objects Sys (Op2Model/StreamSys.lean, the system the `multi` commands execute): frame (a request to one object leaves every other object as it was), a refused creation — and any refused request, from any state — changes nothing in the whole system (C13_refused_request_changes_nothing), and projection — under every interleaved history an object answers and ends exactly as under its own requests alone, also from the point of its creation (C13_interleaving_*); no request changes the bytes an object exposes, so under every interleaved history every object still exposes exactly the window it was created over (C13_request_keeps_window, C13_confined_under_every_history; Op2Proofs/SysContent.lean, for all four backends incl. a slice of a file slice); every object of every system reachable from one memory or file reader by ANY interleaved history with 64-bit arguments satisfies its class invariant and exposes a contiguous window of the root's bytes (C13_every_reachable_object_is_a_window; hence Position() <= Length() <= |root| for every reachable object: C13_reachable_positions_in_range; one derivation: C13_derived_object_is_a_window_of_its_parent; Op2Proofs/SysGood.lean); refinement of whole systems: on every backend every request except copy construction answers and moves as the N-specification specOStep says of the exposed bytes and relative cursor, a system of any mix of backends answers every interleaved history as the list of abstract readers does, and the same history on a memory reader and on a file reader over the same bytes — with all slices it creates — gives the same answers and corresponding objects (C13_request_refines_spec, C13_system_refines_spec, C13_system_backend_equivalence; Op2Proofs/SysEquiv.lean; copy construction excluded: the backends differ there by design, which the model states and the multi runs compare); the construction of a VOL / CLM member stream as the archive models describe it (Vol.View.slice, Clm.extent) is the stream model's Slice.create over the archive file with exactly the member's window (C13_member_stream_is_slice, C13_clm_member_stream_is_slice), so member streams are objects of Sys and keep exposing exactly the member's recorded extent under every history (C13_member_stream_confined); L2: the SliceReader constructor + Initialize, Slice(start,len) and Slice(len) are re-translated from the C++ on every run (Gen/Streams.lean) and proved equal to Slice.create / slice2 / slice1 on all 64-bit values (C13_gen_*, with the read/seek guards of C12_gen_slice_*)")
 PARTIAL = ("the model holds distinct objects as values of one list (Sys); that the C++ objects share no hidden cursor or buffer is "
            "what the interleaving runs compare against Sys.step — the theorems then extend it to every history. VolFile/ClmFile member streams are covered under C05/C01.")
 TRUSTED = ["in-bounds behaviour of std::ifstream as modelled by Stream.FileR; a copied FileReader reopens the file at position 0"]
